@@ -62,3 +62,25 @@ func init() {
 		Trusted: []string{"assumed contracts: list.Stack (LIFO), fmt.Sprintf (deterministic), A-TABLES, A-SOURCE"},
 	})
 }
+
+func init() {
+	register(&PropSpec{
+		ID: "C01", Level: "proof",
+		Pkgs:    []string{"./internal/ebnf/parser/spec", "./internal/ebnf/parser"},
+		Prepare: prepareAll,
+		Select: []Selector{
+			{Units: specPkgRe + `Parse\$1$`, Names: `#post\[(c2[0-9]-|c3[01]-|c24-27-)`},
+			{Units: specPkgRe + `Parse\$1$`, Names: `#post\[(typed|inv)\]\{i=(2[0-9]|3[0-2])\}`},
+			{Units: specPkgRe + `Parse\$1$`, Names: `#(inv-init|inv-pres|inv-frame)\[[0-6],`},
+			{Units: specPkgRe + `Parse\$1$`, Names: `#callsite\[\d+:AddProduction`},
+			{Units: specPkgRe + `Parse\$1$`, Kinds: `^(vacuity|frame)$`},
+			{Units: specPkgRe + `(Strings\.Contains|eqStrings|hashStrings)$`},
+			{Units: specPkgRe + `SymbolTable\.(GetOpt|GetGroup|GetStar|GetPlus|mapStringToNoneTerminal|AddProduction|AddNonTerminal)$`},
+			{Units: specPkgRe + `NewSymbolTable$`, Kinds: `^(post|vacuity)$`},
+		},
+		Lemmas: []string{"L-EXP: if every synthesised non-terminal g is bound to one (operator, set of alternatives) pair, its productions are exactly that operator's schema (group: g->α; opt: g->α|ε; star: g->gα|ε; plus: g->gα|α), synthesised names never coincide with user rules, and the value of every sub-expression is the set algebra of its children (singleton, union, union with ε, pairwise concatenation), then every user rule generates exactly the language its EBNF text denotes (induction on expressions inside a least-fixed-point argument over user non-terminals). The obligations prove the premises per reduce action.",
+			"L-STACK (see C12)"},
+		Trusted: []string{"assumed contracts: grammar.String.Equal/Concat/Prepend (sequence algebra strEq/strCat/strPre), symboltable Get/Put (dom only grows, contains the key put), fmt.Sprintf (non-empty for a format starting with a literal)",
+			"the memo table of synthesised names (strings table) is keyed by eqStrings/hashStrings: that Get may miss an equal key only loses sharing (a second helper with the same schema), which L-EXP does not need; hashStrings is proved to hash the alternatives in sorted order and to only reorder the caller's list (A-SORT: sort.Quick sorts; hasher modelled as a fold)"},
+	})
+}
